@@ -70,6 +70,8 @@ package logqlmetric
 //@   ensures[window]   ret1 == nil ==> as[*rangeAggIterator](ret0).window != nil && !as[*rangeAggIterator](ret0).buffered
 
 //@ func build
+//@   modifies opened(), holds(*)
+//@   trusted_frame
 //@   capture s  = call(sel, 0)
 //@   capture ra = call(RangeAggregation, 0)
 //@   capture ll = call(LiteralBinOp, 0)
@@ -79,6 +81,16 @@ package logqlmetric
 //@   capture b2 = call(build, 2)
 //@   capture b3 = call(build, 3)
 //@   capture b4 = call(build, 4)
+//@   capture va = call(VectorAggregation, 0)
+//@   capture d0 = call(closeOnError, 0)
+//@   capture d1 = call(closeOnError, 1)
+//@   capture d2 = call(closeOnError, 2)
+//@   capture d3 = call(closeOnError, 3)
+//@   capture b0 = call(build, 0)
+//@   ensures[samples-closed-when-range-aggregation-fails] ra_called && ra_r1 != nil ==> d0_called && same(d0_a0, io.Closer(s_r0))
+//@   ensures[input-closed-when-vector-aggregation-fails] va_called && va_r1 != nil ==> d1_called && same(d1_a0, io.Closer(b0_r0))
+//@   ensures[left-closed-when-right-fails] b4_called && b4_r1 != nil ==> d2_called && same(d2_a0, io.Closer(b3_r0))
+//@   ensures[both-closed-when-the-operation-is-rejected] bo_called && bo_r1 != nil ==> d2_called && d3_called && same(d2_a0, io.Closer(b3_r0)) && same(d3_a0, io.Closer(b4_r0))
 //@   ensures[literal-on-the-left]  ll_called ==> ll_a3 && b1_called && ll_a0 == b1_r0 && b1_a0 == old(ll_a1.Right) && same(ll_a2, old(as[*logql.LiteralExpr](ll_a1.Left).Value))
 //@   ensures[literal-on-the-right] lr_called ==> !lr_a3 && b2_called && lr_a0 == b2_r0 && b2_a0 == old(lr_a1.Left) && same(lr_a2, old(as[*logql.LiteralExpr](lr_a1.Right).Value))
 //@   ensures[vector-vector]        bo_called ==> b3_called && b4_called && bo_a0 == b3_r0 && bo_a1 == b4_r0 && b3_a0 == old(bo_a2.Left) && b4_a0 == old(bo_a2.Right)
@@ -369,3 +381,8 @@ package logqlmetric
 //@   capture r = call(i.right.Err, 0)
 //@   modifies nothing
 //@   ensures[either-side-error-surfaces] l_called && r_called && ((l_r0 != nil || r_r0 != nil) == (ret0 != nil))
+
+// closeOnError closes what was built so far exactly when build is failing.
+//@ func build$1
+//@   capture c = call(c.Close, 0)
+//@   ensures[closes-iff-failing] c_called == (rerr != nil)
